@@ -2,6 +2,7 @@ import Ruint.Lemmas.LehmerFrom
 import Ruint.Lemmas.LehmerExtra
 import Ruint.Lemmas.Gcd
 import Ruint.Lemmas.GcdExt
+import Ruint.Gen.LehmerFacts
 
 /-!
 # C12 — gcd, lcm, extended gcd, Lehmer update matrices
